@@ -248,9 +248,27 @@ def generate():
     if "obj = self.broker.getMyReferenceByCLID(self.clid)" not in ast.unparse(yu) or "return (obj, None)" not in ast.unparse(yu):
         raise P.Untranslatable("YourReferenceUnslicer.receiveClose: unexpected shape")
     ys = P.find_def(ref, "YourReferenceSlicer.slice")
-    if "if tracker.broker == broker:\n        yield b'your-reference'\n        yield tracker.clid" not in ast.unparse(ys) \
-            or "tracker = self.obj.tracker" not in ast.unparse(ys):
+    # which test decides that a proxy is "going home" (sent as a bare `your-reference <clid>`, meaningful only in the
+    # export table of ONE connection) rather than as a gift (`their-reference <giftID> <furl>`)
+    src_ys = ast.unparse(ys)
+    if "tracker = self.obj.tracker" not in src_ys:
         raise P.Untranslatable("YourReferenceSlicer.slice: unexpected shape")
+    homes = [n for n in ast.walk(ys) if isinstance(n, ast.If)
+             and [ast.unparse(x) for x in n.body[:2]] == ["yield b'your-reference'", "yield tracker.clid"]]
+    if len(homes) != 1 or len(homes[0].body) != 2 or "yield b'their-reference'" not in ast.unparse(ast.Module(body=homes[0].orelse, type_ignores=[])):
+        raise P.Untranslatable("YourReferenceSlicer.slice: expected `if <home test>: yield b'your-reference'; yield tracker.clid else: ... their-reference`")
+    if src_ys.count("yield b'your-reference'") != 1:
+        raise P.Untranslatable("YourReferenceSlicer.slice: your-reference is emitted in more than one place")
+    test = ast.unparse(homes[0].test)
+    HOME = {"tracker.broker == broker": "HomeSameConnection", "tracker.broker is broker": "HomeSameConnection",
+            "broker == tracker.broker": "HomeSameConnection", "broker is tracker.broker": "HomeSameConnection",
+            "tracker.broker.remote_tubref == broker.remote_tubref": "HomeSamePeerTub",
+            "broker.remote_tubref == tracker.broker.remote_tubref": "HomeSamePeerTub"}
+    if test not in HOME:
+        raise P.Untranslatable("YourReferenceSlicer.slice: unrecognised going-home test: " + test)
+    out.append("Inductive homekey := HomeSameConnection | HomeSamePeerTub.")
+    out.append("(* YourReferenceSlicer.slice: `if %s:` -> bare your-reference <clid>, else gift *)\n"
+               "Definition yourref_homekey : homekey := %s." % (test, HOME[test]))
     cu = P.find_def(cal, "CallUnslicer.receiveChild")
     if "self.obj = self.broker.getMyReferenceByCLID(token)" not in ast.unparse(cu):
         raise P.Untranslatable("CallUnslicer.receiveChild no longer resolves the target with getMyReferenceByCLID")
